@@ -362,6 +362,32 @@ class _FPCore2FPy:
 
         return self._visit(e.body, _Ctx(env=env, props=ctx.props, stmts=ctx.stmts))
 
+    def _visit_loop_cond(self, cond: fpc.Expr, env, ctx: _Ctx):
+        """
+        Compiles the condition of a `while` / `while*` loop.
+
+        A condition that is a plain expression is used as is.  One that needs
+        statements (it contains an `if`, a `let` or an annotation) cannot be
+        re-evaluated by the `while` statement itself: it is evaluated into a
+        flag before the loop and again at the end of every iteration.
+        Returns the condition to test and a function appending the
+        re-evaluation to the loop body.
+        """
+        cond_stmts: list[Stmt] = []
+        cond_e = self._visit(cond, _Ctx(env=env, props=ctx.props, stmts=cond_stmts))
+        if not cond_stmts:
+            return cond_e, lambda stmts: None
+
+        flag = self.gensym.fresh('c')
+        ctx.stmts.extend(cond_stmts)
+        ctx.stmts.append(Assign(flag, None, cond_e, None))
+
+        def recompute(stmts: list[Stmt]):
+            again = self._visit(cond, _Ctx(env=env, props=ctx.props, stmts=stmts))
+            stmts.append(Assign(flag, None, again, None))
+
+        return Var(flag, None), recompute
+
     def _visit_whilestar(self, e: fpc.WhileStar, ctx: _Ctx) -> Expr:
         env = ctx.env
         for var, init, _ in e.while_bindings:
@@ -375,8 +401,7 @@ class _FPCore2FPy:
             ctx.stmts.append(stmt)
 
         # compile condition
-        cond_ctx = _Ctx(env=env, props=ctx.props, stmts=ctx.stmts)
-        cond_e = self._visit(e.cond, cond_ctx)
+        cond_e, recompute_cond = self._visit_loop_cond(e.cond, env, ctx)
 
         # create loop body
         stmts: list[Stmt] = []
@@ -386,6 +411,7 @@ class _FPCore2FPy:
             update_e = self._visit(update, update_ctx)
             stmt = Assign(env[var], None, update_e, None)
             stmts.append(stmt)
+        recompute_cond(stmts)
 
         # append while statement
         while_stmt = WhileStmt(cond_e, StmtBlock(stmts), None)
@@ -408,8 +434,7 @@ class _FPCore2FPy:
             ctx.stmts.append(stmt)
 
         # compile condition
-        cond_ctx = _Ctx(env=env, props=ctx.props, stmts=ctx.stmts)
-        cond_e = self._visit(e.cond, cond_ctx)
+        cond_e, recompute_cond = self._visit_loop_cond(e.cond, env, ctx)
 
         # create loop body
         loop_env = dict(env)
@@ -430,6 +455,7 @@ class _FPCore2FPy:
             t = loop_env[var]
             stmt = Assign(v, None, Var(t, None), None)
             stmts.append(stmt)
+        recompute_cond(stmts)
 
         # append while statement
         while_stmt = WhileStmt(cond_e, StmtBlock(stmts), None)
